@@ -100,5 +100,8 @@ void eval(Ctx& c) {
   c.set("exact_t/S1", T.v); c.set("exact_u/S1", u.v); c.set("exact_rho/S1", rho.v); c.set("exact_rho_N/S1", rN.v); c.set("exact_rho_N2/S1", rN2.v);
 }
 }  // namespace
-void reg_chem() { Sol s; s.name = "euler_chem_1d"; s.prop = "C06"; s.nargs = 1; s.draw = draw; s.point = box_point; s.eval = eval; s.stretch = 1; add(s); }
+void reg_chem() { Sol s; s.name = "euler_chem_1d"; s.prop = "C06"; s.nargs = 1; s.draw = draw; s.point = box_point; s.eval = eval; s.stretch = 1;
+  // Arrhenius exponents may take any value (T > 0): integers and half-integers are the textbook ones
+  s.special_ok = [](const std::string& n) { return (n == "etaf1_N" || n == "etaf1_N2") ? 2 : default_special_ok(n); };
+  add(s); }
 }  // namespace orc
